@@ -290,7 +290,7 @@ def do_set(row, obj, value):
 
 def run_case(case, rec=None, count=True):
     kind = T.kind(case["kind"])
-    K = "C09:%s" % kind.key
+    KK = "C09:%s" % kind.key
     prs, base, kind = open_case(case)
     anchor_path = base + kind.sub
     if kind.prepare is not None:
@@ -312,17 +312,17 @@ def run_case(case, rec=None, count=True):
         from pptx import Presentation
 
         before = snapshot(kind, chain)
-        with core.sut("%s:save" % K):
+        with core.sut("%s:save" % KK):
             buf = io.BytesIO()
             chain[0].save(buf)
-        with core.sut("%s:reopen" % K):
+        with core.sut("%s:reopen" % KK):
             prs2 = Presentation(io.BytesIO(buf.getvalue()))
             chain2 = T.resolve(prs2, full)
         after = snapshot(kind, chain2)
         bad = _diff(before, after)
         if bad:
             n = bad[0]
-            raise Violation("%s:reopen:reading=%s" % (K, n),
+            raise Violation("%s:reopen:reading=%s" % (KK, n),
                             "%s (%s): reading %s is %r before save and %r after re-open; steps so far %r"
                             % (kind.name, case["src"], n, before[n], after[n], steps))
         return chain2
@@ -332,6 +332,7 @@ def run_case(case, rec=None, count=True):
             chain = do_reopen(chain)
             classes.append("reopen:mid" if i else "reopen:first")
         row = kind.row(prop)
+        K = "C09:%s" % (row.owner or kind.key)
         obj = chain[-1]
         value = T.decode(ev)
         before = snapshot(kind, chain)
@@ -437,7 +438,7 @@ NFRESH = 48
 
 
 def jobs(tier):
-    n = 1500 if tier == "thorough" else 64
+    n = 1000 if tier == "thorough" else 64
     sites = _row_sites()
     # greedy balance of row sites over NFRESH jobs (cost ~ kind.cost)
     bins = [[0, []] for _ in range(NFRESH)]
@@ -452,23 +453,36 @@ def jobs(tier):
     nshard = 16
     for s in range(nshard):
         mine = decks[s::nshard]
-        # quick: each kind on at most one deck per shard (<= 16 corpus objects per kind), the decks
-        # visited in an order rotated by shard; thorough: every matching (deck, kind) pair
+        # quick: each kind on the first matching deck of each shard (<= 16 corpus objects per kind);
+        # thorough: every matching (deck, kind) pair
         js.append({"mode": "corpus", "decks": mine, "n": 24 if tier == "thorough" else 2,
                    "per_kind": 999 if tier == "thorough" else 1})
     return js
+
+
+def _only(kname):
+    """development aid (like VERIF_KNOWN_EXTRA): VERIF_C09_ONLY=substr,substr restricts the run to
+    kinds whose name contains one of the substrings; job list, job seeds and per-site seeds are
+    unchanged, so the cases executed are a subset of those of the unrestricted run"""
+    pats = [p for p in os.environ.get("VERIF_C09_ONLY", "").split(",") if p]
+    return not pats or any(p in kname for p in pats)
 
 
 def run_job(job, seed, tier, rec, known):
     fails = []
     if job["mode"] == "fresh":
         for j, (kname, prop) in enumerate(job["sites"]):
+            if not _only(kname):
+                continue
             kind = T.kind(kname)
             row = kind.row(prop)
             strat = case_strategy(kind, row, "fresh")
             fails += hyp_search(lambda c: run_case(c, rec), strat, seed=seed * 131 + j,
                                 max_examples=job["n"], rec=rec, known=known, shrink_budget=120)
         rec.extra["row_sites"] = len(job["sites"])
+        if job["shard"] == 0:
+            rec.extra["rows_enabled"] = T.row_ids()
+            rec.extra["rows_not_enabled"] = list(T.UNVERIFIED)
         return _dedupe(fails)
     if job["mode"] == "corpus":
         from pptx import Presentation
@@ -483,7 +497,7 @@ def run_job(job, seed, tier, rec, known):
                 rec.cls("corpus:deck-unreadable")
                 continue
             for ki, kind in enumerate(T.kinds()):
-                if kind.locate is None or used.get(kind.name, 0) >= job["per_kind"]:
+                if kind.locate is None or used.get(kind.name, 0) >= job["per_kind"] or not _only(kind.name):
                     continue
                 try:
                     path = kind.locate(prs)
@@ -492,7 +506,7 @@ def run_job(job, seed, tier, rec, known):
                 if path is None or not T.unique_path(prs, path):
                     continue
                 # the preconditions must be establishable on this corpus object (else not applicable)
-                probe = {"kind": kind.name, "src": deck, "path": path, "steps": [], "reopen": []}
+                probe = {"kind": kind.name, "src": deck, "path": path, "steps": [], "reopen": [0]}
                 try:
                     run_case(probe, None)
                 except Violation:
